@@ -2,6 +2,7 @@
 
 from __future__ import annotations
 
+from collections import defaultdict
 from dataclasses import dataclass
 from typing import TYPE_CHECKING
 from typing import DefaultDict
@@ -54,22 +55,35 @@ class ExtendsNode(Node):
 
     def render_to_output(self, context: RenderContext, buffer: TextIO) -> int:
         """Render the node to the output buffer."""
-        base_template = _build_block_stacks(context, context.template, "extends")
+        # Block stacks belong to one inheritance chain. A chain entered from inside
+        # another, like an included template that extends a parent of its own,
+        # gets fresh stacks and the enclosing chain's are put back when it's done.
+        outer_stacks = context.tag_namespace["extends"]
+        context.tag_namespace["extends"] = defaultdict(list)
 
-        base_template.render_with_context(context, buffer)
-        context.tag_namespace["extends"].clear()
+        try:
+            base_template = _build_block_stacks(context, context.template, "extends")
+            base_template.render_with_context(context, buffer)
+        finally:
+            context.tag_namespace["extends"] = outer_stacks
+
         raise StopRender
 
     async def render_to_output_async(
         self, context: RenderContext, buffer: TextIO
     ) -> int:
         """Render the node to the output buffer."""
-        base_template = await _build_block_stacks_async(
-            context, context.template, "extends"
-        )
+        outer_stacks = context.tag_namespace["extends"]
+        context.tag_namespace["extends"] = defaultdict(list)
 
-        await base_template.render_with_context_async(context, buffer)
-        context.tag_namespace["extends"].clear()
+        try:
+            base_template = await _build_block_stacks_async(
+                context, context.template, "extends"
+            )
+            await base_template.render_with_context_async(context, buffer)
+        finally:
+            context.tag_namespace["extends"] = outer_stacks
+
         raise StopRender
 
     def children(
